@@ -348,6 +348,9 @@ fn make(tok: &[&str], ids: &Ids) -> Run {
 			&& !mute
 			&& rate_fixed == Some(1.0)
 			&& lp == Some((0, n))
+			// (a start position outside the data plays silence into the resampler first: the output then
+			// interpolates up from zero and does not show the volume exactly)
+			&& start_idx < n
 			&& fade_in.is_none()
 			&& !matches!(start_time, StartTime::ClockTime(_)),
 		cfg,
